@@ -52,6 +52,18 @@ def run(ctx, idx):
     ctx.rule("C06.d", "FuzzyXOr reads exactly the two truest layers of the sorted stack and guards the quotient whose divisor is Top(1) - FUZZY_MIN with a test Top(1) <= FUZZY_MIN selecting the constant FUZZY_MIN.")
     ctx.rule("C06.g", "An operator is a function of the fields it is given: its execute keeps nothing between executions (no module-level table of stacks / results keyed by names, no cached helper) - two programs in one process, or one model loaded twice over different data, must not see each other's layers.")
     R.no_kept_state(ctx, idx, "C06.g", OPERATORS, ": the operator returns the mean / maximum of another data set's layers")
+    # read before the array analyser runs: the exclusive-or is defined on the truest and the second truest of ALL inputs - the
+    # formula is not associative, so a pairwise fold over the inputs (reduce) computes something else for three inputs or more,
+    # and depends on their order
+    xcls = idx.cls("mpilot.libraries.eems.fuzzy", "FuzzyXOr")
+    xex = xcls.methods.get("execute") if xcls is not None else None
+    if xex is None:
+        raise AnalysisError("C06.d: FuzzyXOr.execute vanished")
+    folds = [n for n in ast.walk(getattr(xex, "node_orig", None) or xex.node) if isinstance(n, ast.Call) and (idx.qualname(xex.module, n.func, xex) or K.src(n.func)).split(".")[-1] == "reduce"
+             and len(n.args) >= 2 and not ("mask" in K.src(n.args[1]) or "mask" in K.src(n.args[0]))]
+    if folds:
+        ctx.violate("C06.d", "%s::two-truest" % xex.key.replace(".execute", "") + ".execute", K.rel(xex), folds[0].lineno, "`%s` folds the exclusive-or over the inputs pair by pair: the EEMS formula is not associative, so with three or more inputs the value is not the one defined on the truest and second truest of all of them, and it changes with the order of the inputs" % K.src(folds[0])[:60])
+        return
     res = {d.cls.name: (d, r) for d, r in R.results(idx).values() if d.module.name.endswith("eems.fuzzy")}
     ctx.rule("C06.f", "Operators leave their operands alone: no in-place write (data or mask buffer) reaches an input.")
     ctx.rule("C06.e", "Missing cells combine as the definitions require: the result is missing wherever any input is (the returned mask covers every input's mask).")
